@@ -1770,6 +1770,323 @@ VF_PART(factor_db_layout)
   }
 }
 
+// ================================================================================================
+// PART 13: object REUSE. Histories of 2..3 fits on ONE object; after the last fit the reused object must answer exactly as
+// a FRESH object on which only the last fit was performed (bitwise: both execute the same arithmetic). E2-style, but the
+// histories are short enough to be enumerated as a product space.
+// VH::normalScore is a static function without state: nothing to reuse.
+// AnamDiscreteDD / AnamDiscreteIR are not raw<->Gaussian transforms (no inverse, C18 names Hermite and empirical only): not driven.
+struct Obs { std::vector<std::pair<std::string, std::vector<double>>> f; void add(const std::string& n, const std::vector<double>& v) { f.push_back({n, v}); } };
+// first observable that differs (bitwise), "" if none
+static std::string obsDiff(const Obs& a, const Obs& b, std::string& detail)
+{
+  for (size_t k = 0; k < a.f.size() && k < b.f.size(); k++)
+  {
+    const auto& x = a.f[k].second; const auto& y = b.f[k].second;
+    if (x.size() != y.size()) { detail = a.f[k].first + ": " + std::to_string(x.size()) + " values against " + std::to_string(y.size()); return a.f[k].first; }
+    for (size_t i = 0; i < x.size(); i++)
+      if (!sameBits(x[i], y[i]) && !(x[i] == 0 && y[i] == 0))
+      { detail = a.f[k].first + "[" + std::to_string(i) + "] reused=" + fmt(x[i]) + " fresh=" + fmt(y[i]); return a.f[k].first; }
+  }
+  if (a.f.size() != b.f.size()) { detail = "number of observables"; return "size"; }
+  return "";
+}
+
+// ---- PCA / MAF
+struct FDat { int nvar; std::vector<std::vector<double>> rows; bool extra; const char* name; };
+static const std::vector<FDat>& factorData()
+{
+  static std::vector<FDat> D = {
+    {1, {{0}, {1}, {2}, {5}}, false, "A1"},
+    {1, {{100}, {105}, {101}, {90}, {97}}, false, "B1(offset)"},
+    {2, {{0, 1}, {1, 5}, {2, 2}, {5, 0}}, false, "A2"},
+    {2, {{100, 50}, {101, 55}, {102, 52}, {105, 50}, {103, 51}}, false, "B2(offset)"},
+    {2, {{0, 0}, {1, 2}, {2, 4}, {5, 10}}, false, "C2(rank-deficient)"},
+    {2, {{5, 1}, {0, 0}, {2, 5}, {1, 1}}, true, "D2(+heterotopic+masked)"},
+    {3, {{0, 1, 3}, {1, 0, 0}, {3, 3, 1}, {0, 0, 1}, {1, 3, 0}}, false, "A3"},
+    {3, {{10, 21, 33}, {11, 20, 30}, {13, 23, 31}, {10, 20, 31}, {11, 23, 30}}, false, "B3(offset)"},
+  };
+  return D;
+}
+static Db* factorDb(const FDat& d)
+{
+  std::vector<std::vector<double>> all = d.rows;
+  std::vector<double> sel(all.size(), 1.);
+  if (d.extra)
+  {
+    std::vector<double> het(d.nvar, 7.); het[0] = TEST;
+    std::vector<double> wild(d.nvar, 1000.); wild[d.nvar - 1] = -3000.;
+    all.insert(all.begin() + 1, het); sel.insert(sel.begin() + 1, 1.);
+    all.push_back(wild); sel.push_back(0.);
+  }
+  std::vector<std::vector<double>> vars(d.nvar);
+  for (int k = 0; k < d.nvar; k++) for (auto& r : all) vars[k].push_back(r[k]);
+  LayDb L = buildLayout(0, vars, d.extra ? &sel : nullptr);
+  return L.db;
+}
+static int factorOp(PCA& p, int op, const FDat& d)   // op 0 pca_compute, 1 maf_compute_interval
+{
+  Db* db = factorDb(d);
+  int e = op ? p.maf_compute_interval(db, 0.5, 1.5) : p.pca_compute(db);
+  delete db;
+  return e;
+}
+static Obs factorObs(PCA& p, const FDat& d, bool withGh)
+{
+  Obs o;
+  auto mat = [](const AMatrix& m) { std::vector<double> v; for (int i = 0; i < m.getNRows(); i++) for (int j = 0; j < m.getNCols(); j++) v.push_back(m.getValue(i, j)); return v; };
+  o.add("nvar", {(double)p.getNVar()});
+  o.add("mean", std::vector<double>(p.getMeans().begin(), p.getMeans().end()));
+  o.add("sigma", std::vector<double>(p.getSigmas().begin(), p.getSigmas().end()));
+  o.add("c0", mat(p.getC0()));
+  if (withGh) o.add("gh", mat(p._gh));
+  o.add("eigval", std::vector<double>(p.getEigVals().begin(), p.getEigVals().end()));
+  o.add("eigvec", mat(p.getEigVecs()));
+  o.add("Z2F", mat(p.getZ2Fs()));
+  o.add("F2Z", mat(p.getF2Zs()));
+  Db* db = factorDb(d);
+  int nc0 = db->getColumnNumber();
+  int e1 = p.dbZ2F(db);
+  int e2 = e1 ? 1 : p.dbF2Z(db);
+  o.add("dbZ2F/dbF2Z-return", {(double)e1, (double)e2});
+  std::vector<double> F, Z;
+  if (!e1 && !e2)
+    for (int i = 0; i < db->getSampleNumber(); i++)
+      for (int k = 0; k < d.nvar; k++) { F.push_back(db->getValueByColIdx(i, nc0 + k)); Z.push_back(db->getValueByColIdx(i, nc0 + d.nvar + k)); }
+  o.add("factors", F);
+  o.add("backtransform", Z);
+  delete db;
+  return o;
+}
+
+// ---- anamorphoses
+static const std::vector<VectorDouble>& anamData()
+{
+  static std::vector<VectorDouble> D = {{0, 1, 2, 5, 100}, {1, 2, 4, 8, 16, 32}, {0, 1, 1, 2, 5, 100}, {-4, -1, -0.25, 0, 0.25, 1, 4}, {3, 3.5, 4, 6, 7, 7.5, 9, 12, 20}, {1, 1, 2}};
+  return D;
+}
+static Obs contObs(AnamContinuous* a)
+{
+  Obs o;
+  if (AnamHermite* h = dynamic_cast<AnamHermite*>(a))
+  {
+    VectorDouble p = h->getPsiHns();
+    o.add("coeffs", std::vector<double>(p.begin(), p.end()));
+    o.add("mean-variance", {h->getMean(), h->getVariance()});
+  }
+  if (AnamEmpirical* e = dynamic_cast<AnamEmpirical*>(a))
+  {
+    o.add("sigma2e", {e->getSigma2e()});
+    o.add("ndisc", {(double)e->getNDisc()});
+    o.add("ztable", std::vector<double>(e->getZDisc().begin(), e->getZDisc().end()));
+    o.add("ytable", std::vector<double>(e->getYDisc().begin(), e->getYDisc().end()));
+  }
+  o.add("bounds", {a->getAzmin(), a->getAzmax(), a->getAymin(), a->getAymax(), a->getPzmin(), a->getPzmax(), a->getPymin(), a->getPymax()});
+  std::vector<double> fw, bw;
+  for (int k = -48; k <= 48; k++) fw.push_back(a->transformToRawValue(k / 16.));
+  for (int k = -8; k <= 40; k++) bw.push_back(a->rawToTransformValue(k * 0.75));
+  o.add("transformToRawValue", fw);
+  o.add("rawToTransformValue", bw);
+  return o;
+}
+
+VF_PART(reuse)
+{
+  // ---------------- family 0/1: PCA / MAF histories of 2 and 3 computes on one object
+  const auto& FD = factorData();
+  int nd = (int)FD.size();
+  for (int len = 2; len <= 3; len++)
+  {
+    Space sp;
+    for (int k = 0; k < len; k++) sp.axis("data" + std::to_string(k), nd).axis("op" + std::to_string(k), 2);
+    for_each_case_fam(C, len - 2, sp, [&](uint64_t id, const std::vector<int>& ix) {
+      std::string kase = std::to_string(len - 2) + "/" + std::to_string(id);
+      std::string ops, hist;
+      PCA reused;
+      std::vector<int> rets;
+      for (int k = 0; k < len; k++)
+      {
+        int op = ix[2 * k + 1]; const FDat& d = FD[ix[2 * k]];
+        if (k >= len - 2) ops += std::string(k > len - 2 ? ">" : "") + (op ? "maf" : "pca");   // key = the last two computes
+        hist += std::string(k ? " then " : "") + (op ? "maf_compute_interval(" : "pca_compute(") + d.name + ")";
+        rets.push_back(factorOp(reused, op, d));
+      }
+      const FDat& last = FD[ix[2 * (len - 1)]];
+      int lop = ix[2 * (len - 1) + 1];
+      PCA fresh;
+      int ef = factorOp(fresh, lop, last);
+      C.eval();
+      bool nvarChange = false;
+      for (int k = 0; k + 1 < len; k++) if (FD[ix[2 * k]].nvar != last.nvar) nvarChange = true;
+      std::string cls = std::string("len") + std::to_string(len) + (nvarChange ? ":nvar-changes" : ":same-nvar");
+      if (ef != rets.back())
+      {
+        C.outcome("pca:" + cls + ":RETURN-CODE-DIFFERS");
+        C.violation("reuse:pca:" + ops + ":return-code", "one PCA object, " + hist + ": the last compute returns " + std::to_string(rets.back()) + ", a fresh object returns " + std::to_string(ef), kase);
+        return;
+      }
+      if (ef) { C.skip(); C.outcome("pca:" + cls + ":last-compute-refused-by-both"); return; }
+      Obs a = factorObs(reused, last, lop == 1), b = factorObs(fresh, last, lop == 1);
+      std::string detail, w = obsDiff(a, b, detail);
+      bool firstFailed = false; for (int k = 0; k + 1 < len; k++) if (rets[k]) firstFailed = true;
+      C.outcome("pca:" + cls + (firstFailed ? ":after-a-refused-compute" : "") + (w.empty() ? ":equal-to-fresh" : ":DIFFERS"));
+      if (!w.empty())
+        C.violation("reuse:pca:" + ops + ":" + w, "one PCA object, " + hist + ": " + detail + " (fresh = a new PCA object on which only the last call is made)", kase);
+      C.nontrivial(Hash().i(len).u(id).h);
+      if (id % 1201 == 0) C.sample("{\"class\":\"PCA\",\"history\":" + jstr(hist) + "}");
+    });
+  }
+  // ---------------- family 2/3: anamorphosis histories
+  // class: 0 AnamHermite(nbpoly 5), 1 AnamHermite(20), 2 empirical normal score, 3 empirical gaussian dilution (default sigma2e),
+  //        4 empirical lognormal dilution ndisc=12 sigma2e=1/4
+  // step kinds: fit(data) ; the last step is always a fit. middle operation (len 3 only): 0 fit(data), 1 reset to explicit
+  // parameters (then BOTH objects, reused and fresh, are reset the same way before the last fit), 2 copy: the last fit is
+  // made on a copy-constructed object (and the original must still answer as before the copy)
+  const auto& AD = anamData();
+  int na = (int)AD.size();
+  auto make = [&](int cls) -> AnamContinuous* {
+    if (cls == 0) return AnamHermite::create(5);
+    if (cls == 1) return AnamHermite::create(20);
+    if (cls == 2) return new AnamEmpirical(100, TEST, false, true);
+    if (cls == 3) return new AnamEmpirical(100, TEST, true, true);
+    return new AnamEmpirical(12, 0.25, true, false);
+  };
+  static const char* CLS[5] = {"anam-hermite", "anam-hermite", "anam-empirical-normal-score", "anam-empirical-gaussian-dilution", "anam-empirical-lognormal-dilution"};
+  static const char* CLSD[5] = {"AnamHermite(5)", "AnamHermite(20)", "AnamEmpirical(normal score)", "AnamEmpirical(gaussian dilution)", "AnamEmpirical(lognormal dilution,12,0.25)"};
+  auto doReset = [&](AnamContinuous* a, int cls) {
+    if (AnamHermite* h = dynamic_cast<AnamHermite*>(a)) h->reset(-2, 1, 2, 9, -3, 0.5, 3, 10, 1., {5., -2., 0.5, -0.125, 0., 0., 0., 0.});
+    if (AnamEmpirical* e = dynamic_cast<AnamEmpirical*>(a)) e->reset(cls == 4 ? 12 : 100, -1, 1, 1, 3, -1, 1, 1, 3, cls == 4 ? 0.25 : TEST, VectorDouble(cls == 4 ? 12 : 100, 0.), VectorDouble(cls == 4 ? 12 : 100, 0.));
+  };
+  auto safeFit = [&](AnamContinuous* a, const VectorDouble& d, bool& thrown) { thrown = false; int e = 0; try { e = a->fitFromArray(d); } catch (...) { thrown = true; e = -99; } return e; };
+  {
+    // len 2: fit A, fit B
+    Space sp; sp.axis("class", 5).axis("dataA", na).axis("dataB", na);
+    for_each_case_fam(C, 2, sp, [&](uint64_t id, const std::vector<int>& ix) {
+      int cls = ix[0];
+      std::string kase = "2/" + std::to_string(id);
+      std::string hist = std::string(CLSD[cls]) + ": fit(" + vstr(AD[ix[1]]) + ") then fit(" + vstr(AD[ix[2]]) + ")";
+      AnamContinuous* r = make(cls); AnamContinuous* f = make(cls);
+      bool t1, t2, t3;
+      int e1 = safeFit(r, AD[ix[1]], t1);
+      int e2 = safeFit(r, AD[ix[2]], t2);
+      int ef = safeFit(f, AD[ix[2]], t3);
+      C.eval();
+      std::string K = std::string("reuse:") + CLS[cls] + ":fit>fit:";
+      if (e2 != ef) { C.outcome(std::string(CLS[cls]) + ":len2:RETURN-CODE-DIFFERS"); C.violation(K + "return-code", hist + ": the second fit returns " + std::to_string(e2) + (t2 ? " (exception)" : "") + ", a fresh object returns " + std::to_string(ef), kase); }
+      else if (ef) { C.skip(); C.outcome(std::string(CLS[cls]) + ":len2:last-fit-refused-by-both"); }
+      else
+      {
+        Obs a = contObs(r), b = contObs(f);
+        std::string detail, w = obsDiff(a, b, detail);
+        C.outcome(std::string(CLS[cls]) + ":len2" + (ix[1] == ix[2] ? ":same-data-twice" : "") + (e1 ? ":after-a-refused-fit" : "") + (w.empty() ? ":equal-to-fresh" : ":DIFFERS"));
+        if (!w.empty()) C.violation(K + w, hist + ": " + detail, kase);
+        C.nontrivial(Hash().i(20).u(id).h);
+      }
+      delete r; delete f;
+    });
+  }
+  {
+    // len 3: fit A, middle, fit C
+    Space sp; sp.axis("class", 5).axis("dataA", na).axis("middle", 3).axis("dataB", na).axis("dataC", na);
+    for_each_case_fam(C, 3, sp, [&](uint64_t id, const std::vector<int>& ix) {
+      int cls = ix[0], mid = ix[2];
+      if (mid != 0 && ix[3] != 0) return;   // dataB is only used by the middle fit
+      std::string kase = "3/" + std::to_string(id);
+      static const char* MID[3] = {"fit", "reset", "copy"};
+      std::string hist = std::string(CLSD[cls]) + ": fit(" + vstr(AD[ix[1]]) + ") then " + (mid == 0 ? "fit(" + vstr(AD[ix[3]]) + ")" : mid == 1 ? std::string("reset(explicit parameters)") : std::string("copy-construct")) + " then fit(" + vstr(AD[ix[4]]) + ")" + (mid == 2 ? " on the copy" : "");
+      AnamContinuous* r = make(cls); AnamContinuous* f = make(cls);
+      bool t;
+      int e1 = safeFit(r, AD[ix[1]], t);
+      AnamContinuous* target = r; AnamContinuous* copy = nullptr;
+      Obs before;
+      if (mid == 0) (void)safeFit(r, AD[ix[3]], t);
+      if (mid == 1) { doReset(r, cls); doReset(f, cls); }
+      if (mid == 2)
+      {
+        if (!e1) before = contObs(r);
+        copy = dynamic_cast<AnamContinuous*>(r->clone());
+        target = copy;
+      }
+      int e3 = safeFit(target, AD[ix[4]], t);
+      int ef = safeFit(f, AD[ix[4]], t);
+      C.eval();
+      std::string K = std::string("reuse:") + CLS[cls] + ":" + MID[mid] + ">fit:";   // key = the last two steps
+      if (e3 != ef) { C.outcome(std::string(CLS[cls]) + ":len3:RETURN-CODE-DIFFERS"); C.violation(K + "return-code", hist + ": the last fit returns " + std::to_string(e3) + ", a fresh object returns " + std::to_string(ef), kase); }
+      else if (ef) { C.skip(); C.outcome(std::string(CLS[cls]) + ":len3:last-fit-refused-by-both"); }
+      else
+      {
+        Obs a = contObs(target), b = contObs(f);
+        std::string detail, w = obsDiff(a, b, detail);
+        C.outcome(std::string(CLS[cls]) + ":len3:" + MID[mid] + (w.empty() ? ":equal-to-fresh" : ":DIFFERS"));
+        if (!w.empty()) C.violation(K + w, hist + ": " + detail, kase);
+        if (mid == 2 && !e1)
+        {
+          // the original must not be affected by what is done to its copy
+          Obs after = contObs(r);
+          std::string d2, w2 = obsDiff(after, before, d2);
+          if (!w2.empty()) C.violation(std::string("reuse:") + CLS[cls] + ":copy-not-independent:" + w2, hist + ": the ORIGINAL object changed: " + d2, kase);
+        }
+        C.nontrivial(Hash().i(30).u(id).h);
+      }
+      delete r; delete f; delete copy;
+    });
+  }
+  // ---------------- family 4: rotations. ops: 0..NA-1 setAngles(menu), NA..2NA-1 setMatrixDirect(matrix of menu angles),
+  // 2NA resetFromSpaceDimension(same ndim), 2NA+1 resetFromSpaceDimension(other ndim) then back, 2NA+2 setIdentity
+  {
+    static const double RA[][3] = {{30, 0, 0}, {45, 90, 10}, {-60, 22.5, 270}, {0, 0, 0}, {180, 45, -135}};
+    const int NA = 5, NOP = 2 * NA + 3;
+    auto apply = [&](Rotation& R, int ndim, int op) {
+      if (op < NA) { VectorDouble a = {RA[op][0]}; if (ndim == 3) { a.push_back(RA[op][1]); a.push_back(RA[op][2]); } R.setAngles(a); }
+      else if (op < 2 * NA)
+      {
+        Rotation T(ndim); VectorDouble a = {RA[op - NA][0]}; if (ndim == 3) { a.push_back(RA[op - NA][1]); a.push_back(RA[op - NA][2]); }
+        T.setAngles(a);
+        R.setMatrixDirect(T.getMatrixDirect());
+      }
+      else if (op == 2 * NA) R.resetFromSpaceDimension(ndim);
+      else if (op == 2 * NA + 1) { R.resetFromSpaceDimension(5 - ndim); R.resetFromSpaceDimension(ndim); }
+      else R.setIdentity();
+    };
+    auto robs = [&](Rotation& R, int ndim) {
+      Obs o;
+      o.add("ndim", {(double)R.getNDim()});
+      o.add("flag", {(double)R.isRotated()});
+      o.add("angles", std::vector<double>(R.getAngles().begin(), R.getAngles().end()));
+      VectorDouble m = R.getMatrixDirectVec(), mi = R.getMatrixInverseVec();
+      o.add("matrix", std::vector<double>(m.begin(), m.end()));
+      o.add("inverse", std::vector<double>(mi.begin(), mi.end()));
+      VectorDouble v(ndim), w(ndim), u(ndim);
+      for (int k = 0; k < ndim; k++) v[k] = 1 + 2 * k;
+      R.rotateDirect(v, w); R.rotateInverse(v, u);
+      o.add("rotateDirect", std::vector<double>(w.begin(), w.end()));
+      o.add("rotateInverse", std::vector<double>(u.begin(), u.end()));
+      return o;
+    };
+    for (int len = 2; len <= 3; len++)
+    {
+      Space sp; sp.axis("ndim", 2);
+      for (int k = 0; k < len; k++) sp.axis("op" + std::to_string(k), k == len - 1 ? 2 * NA : NOP);
+      for_each_case_fam(C, 2 + len, sp, [&](uint64_t id, const std::vector<int>& ix) {
+        int ndim = ix[0] + 2;
+        std::string kase = std::to_string(2 + len) + "/" + std::to_string(id);
+        auto opn = [&](int op) { return op < NA ? std::string("setAngles") : op < 2 * NA ? std::string("setMatrixDirect") : op == 2 * NA ? std::string("reset") : op == 2 * NA + 1 ? std::string("reset-other-ndim") : std::string("setIdentity"); };
+        Rotation R(ndim), F(ndim);
+        std::string ops;
+        for (int k = 0; k < len; k++) { apply(R, ndim, ix[1 + k]); if (k >= len - 2) ops += (k > len - 2 ? ">" : "") + opn(ix[1 + k]); }
+        apply(F, ndim, ix[len]);
+        C.eval();
+        Obs a = robs(R, ndim), b = robs(F, ndim);
+        std::string detail, w = obsDiff(a, b, detail);
+        C.outcome(std::string("rotation:len") + std::to_string(len) + (w.empty() ? ":equal-to-fresh" : ":DIFFERS"));
+        if (!w.empty()) C.violation("reuse:rotation:" + ops + ":" + w, "one Rotation(ndim=" + std::to_string(ndim) + ") object, operations " + ops + " (case " + kase + "): " + detail, kase);
+        C.nontrivial(Hash().i(40 + len).u(id).h);
+      });
+    }
+  }
+  if (owns_part(C)) C.note("VH::normalScore is a static function (no state): no reuse history; AnamDiscreteDD/IR are not raw<->Gaussian transforms and are not driven");
+}
+
 int main(int argc, char** argv)
 {
   // my_throw() prints every exception text on std::cout, whatever the message redirection: drop it
